@@ -830,6 +830,140 @@ fn gen_tvl_query(r: &mut Rng, t0: &Tbl, t1: &Tbl) -> Query {
     Query { shape, sql: sql.clone(), lite: sql, logical: plan, ordered: false, limit: None, scalar_sub: false, order_keys: None }
 }
 
+// ---------------------------------------------------------------------------------------------
+// range predicates whose two constant bounds are equal, adjacent or reversed
+// ---------------------------------------------------------------------------------------------
+
+/// `x BETWEEN lo AND hi`, `x >= lo AND x <= hi`, `lo <= x AND x <= hi`, half-open and open variants, with the
+/// bounds EQUAL (a point: the rows equal to it qualify), adjacent, or reversed (empty by SQL), constants taken from
+/// the values the columns hold; optionally under NOT.  `x` may be an INT / VARCHAR column or `count(*)`.
+fn range_pred(r: &mut Rng, x_sql: &str, x_plan: &str, is_str: bool, allow_not: bool) -> (E, String) {
+    let (lo, hi, kind): (String, String, &str) = if is_str {
+        match r.below(6) {
+            0..=3 => {
+                let v = *r.pick(&["a", "b", "ab", ""]);
+                (format!("'{v}'"), format!("'{v}'"), "equal")
+            }
+            4 => ("'a'".into(), "'ab'".into(), "adjacent"),
+            _ => ("'b'".into(), "'a'".into(), "reversed"),
+        }
+    } else {
+        let c = r.range(0, 3);
+        match r.below(6) {
+            0..=3 => (c.to_string(), c.to_string(), "equal"),
+            4 => (c.to_string(), (c + 1).to_string(), "adjacent"),
+            _ => ((c + 1).to_string(), c.to_string(), "reversed"),
+        }
+    };
+    let (sql, plan, form): (String, String, &str) = match r.below(if is_str { 7 } else { 8 }) {
+        0 | 1 => (format!("{x_sql} BETWEEN {lo} AND {hi}"), format!("(and (>= {x_plan} {lo}) (<= {x_plan} {hi}))"), "between"),
+        2 => (format!("({x_sql} >= {lo} AND {x_sql} <= {hi})"), format!("(and (>= {x_plan} {lo}) (<= {x_plan} {hi}))"), "ge-le"),
+        3 => (format!("({lo} <= {x_sql} AND {x_sql} <= {hi})"), format!("(and (<= {lo} {x_plan}) (<= {x_plan} {hi}))"), "le-le"),
+        4 => (format!("({x_sql} <= {hi} AND {x_sql} >= {lo})"), format!("(and (<= {x_plan} {hi}) (>= {x_plan} {lo}))"), "le-ge"),
+        5 => (format!("({x_sql} >= {lo} AND {x_sql} < {hi})"), format!("(and (>= {x_plan} {lo}) (< {x_plan} {hi}))"), "ge-lt"),
+        6 => (format!("({x_sql} > {lo} AND {x_sql} <= {hi})"), format!("(and (> {x_plan} {lo}) (<= {x_plan} {hi}))"), "gt-le"),
+        _ => (format!("({x_sql} > {lo} AND {x_sql} < {hi})"), format!("(and (> {x_plan} {lo}) (< {x_plan} {hi}))"), "gt-lt"),
+    };
+    let mut tag = format!("{kind}/{form}{}", if is_str { "/str" } else { "" });
+    let e = E { sql: sql.clone(), lite: sql, plan };
+    if allow_not && r.chance(1, 4) {
+        tag += "/not";
+        if form == "between" && r.chance(1, 2) {
+            let sql = format!("{x_sql} NOT BETWEEN {lo} AND {hi}");
+            return (E { sql: sql.clone(), lite: sql, plan: format!("(not {})", e.plan) }, tag);
+        }
+        return (e_not(&e), tag);
+    }
+    (e, tag)
+}
+
+fn range_pred_on(r: &mut Rng, cols: &[Col], allow_not: bool) -> (E, String) {
+    let cands: Vec<&Col> = cols.iter().filter(|c| c.ty != Ty::Bool).collect();
+    let mut c = *r.pick(&cands);
+    if c.ty == Ty::Str && r.chance(1, 2) {
+        c = *r.pick(&cands);
+    }
+    range_pred(r, &c.sql, &c.plan, c.ty == Ty::Str, allow_not)
+}
+
+fn gen_range_query(r: &mut Rng, t0: &Tbl, t1: &Tbl) -> Query {
+    let cols0: Vec<Col> = t0.cols.iter().enumerate().map(|(i, c)| Col { sql: c.0.into(), plan: format!("$0.{i}"), ty: c.1 }).collect();
+    let cols1: Vec<Col> = t1.cols.iter().enumerate().map(|(i, c)| Col { sql: c.0.into(), plan: format!("$1.{i}"), ty: c.1 }).collect();
+    let all: Vec<Col> = cols0.iter().chain(cols1.iter()).cloned().collect();
+    let (scan0, scan1) = (scan_plan(0, cols0.len()), scan_plan(1, cols1.len()));
+    let mut shape = String::from("range");
+    let (from_sql, from_plan, out_cols): (String, String, Vec<Col>);
+    match r.below(12) {
+        0..=2 => {
+            let (mut p, tag) = range_pred_on(r, &cols0, true);
+            shape += &format!(" where {tag}");
+            if r.chance(1, 4) {
+                p = e_bin("AND", "and", &p, &tvl_simple(r, &cols0));
+                shape += "+and";
+            } else if r.chance(1, 5) {
+                p = e_bin("OR", "or", &p, &tvl_simple(r, &cols0));
+                shape += "+or";
+            }
+            from_sql = format!("{} WHERE {}", t0.name, p.sql);
+            from_plan = format!("(filter {} {scan0})", p.plan);
+            out_cols = cols0.clone();
+        }
+        3 => {
+            let (p, tag) = range_pred_on(r, &all, true);
+            shape += &format!(" join:inner where {tag}");
+            from_sql = format!("{} JOIN {} ON a = x WHERE {}", t0.name, t1.name, p.sql);
+            from_plan = format!("(filter {} (join inner (= $0.0 $1.0) {scan0} {scan1}))", p.plan);
+            out_cols = all.clone();
+        }
+        4 | 5 => {
+            let left = r.chance(1, 3);
+            let (p, tag) = if left { range_pred_on(r, &cols1, false) } else { range_pred_on(r, &all, true) };
+            shape += &format!(" join:{} on-residual {tag}", if left { "left_outer" } else { "inner" });
+            from_sql = format!("{} {} {} ON a = x AND {}", t0.name, if left { "LEFT JOIN" } else { "JOIN" }, t1.name, p.sql);
+            from_plan = format!("(join {} (and (= $0.0 $1.0) {}) {scan0} {scan1})", if left { "left_outer" } else { "inner" }, p.plan);
+            out_cols = all.clone();
+        }
+        6 => {
+            let (p, tag) = range_pred_on(r, &all, true);
+            shape += &format!(" join:inner on-non-equi {tag}");
+            from_sql = format!("{} JOIN {} ON c < z AND {}", t0.name, t1.name, p.sql);
+            from_plan = format!("(join inner (and (< $0.2 $1.2) {}) {scan0} {scan1})", p.plan);
+            out_cols = all.clone();
+        }
+        7 | 8 => {
+            let (p, tag) = range_pred_on(r, &cols1, true);
+            shape += &format!(" in-subquery {tag}");
+            from_sql = format!("{} WHERE a IN (SELECT x FROM {} WHERE {})", t0.name, t1.name, p.sql);
+            from_plan = format!("(join semi (= $0.0 $1.0) {scan0} (filter {} {scan1}))", p.plan);
+            out_cols = cols0.clone();
+        }
+        9 => {
+            let (p, tag) = range_pred_on(r, &cols1, true);
+            let anti = r.chance(1, 2);
+            shape += &format!(" {} {tag}", if anti { "not-exists-subquery" } else { "exists-subquery" });
+            from_sql = format!("{} WHERE {}EXISTS (SELECT * FROM {} WHERE x = a AND {})", t0.name, if anti { "NOT " } else { "" }, t1.name, p.sql);
+            from_plan = format!("(join {} (= $1.0 $0.0) {scan0} (filter {} {scan1}))", if anti { "anti" } else { "semi" }, p.plan);
+            out_cols = cols0.clone();
+        }
+        _ => {
+            // HAVING: a range on the GROUP BY key or on count(*)
+            let k = r.pick(&[cols0[0].clone(), cols0[1].clone(), cols0[2].clone(), cols0[3].clone()]).clone();
+            let (p, tag) = if r.chance(1, 2) { range_pred(r, &k.sql, &k.plan, k.ty == Ty::Str, true) } else { range_pred(r, "count(*)", "rowcount", false, true) };
+            shape += &format!(" group-by having {tag}");
+            let sql = format!("SELECT {} AS o0, count(*) AS o1 FROM {} GROUP BY {} HAVING {}", k.sql, t0.name, k.sql, p.sql);
+            let plan = format!("(proj (list {} rowcount) (filter {} (hashagg (list {}) (list rowcount) {scan0})))", k.plan, p.plan, k.plan);
+            return Query { shape, sql: sql.clone(), lite: sql, logical: plan, ordered: false, limit: None, scalar_sub: false, order_keys: None };
+        }
+    }
+    let k = r.range(1, 3) as usize;
+    let picked: Vec<Col> = (0..k).map(|_| r.pick(&out_cols).clone()).collect();
+    let names: Vec<String> = picked.iter().enumerate().map(|(i, c)| format!("{} AS o{i}", c.sql)).collect();
+    let refs: Vec<String> = picked.iter().map(|c| c.plan.clone()).collect();
+    let sql = format!("SELECT {} FROM {from_sql}", names.join(", "));
+    let plan = format!("(proj {} {from_plan})", list(&refs));
+    Query { shape, sql: sql.clone(), lite: sql, logical: plan, ordered: false, limit: None, scalar_sub: false, order_keys: None }
+}
+
 fn scan_plan(t: usize, ncols: usize) -> String {
     let cols: Vec<String> = (0..ncols).map(|c| format!("${t}.{c}")).collect();
     format!("(scan ${t} (list {}) true)", cols.join(" "))
@@ -1279,12 +1413,17 @@ fn gen(n: usize, out: &str) {
         // 14 % of the triples: three-valued logic where a condition is read (nullable BOOLEAN bare / under NOT,
         // [NOT] IN (list), NOT (p AND q), NOT (p OR q) in WHERE / ON / EXISTS / HAVING)
         let force_tvl = !force_scalar && !force_orderpad && !force_mix && r.chance(14, 100);
+        // 10 % of the triples: range predicates with equal / adjacent / reversed constant bounds (BETWEEN c AND c,
+        // x >= c AND x <= c, half-open, under NOT) in WHERE / ON / IN and EXISTS subqueries / HAVING
+        let force_range = !force_scalar && !force_orderpad && !force_mix && !force_tvl && r.chance(10, 100);
         let q = if force_orderpad {
             gen_orderpad_query(&mut r, &t0, &t1)
         } else if force_mix {
             gen_clausemix_query(&mut r, &t0, &t1)
         } else if force_tvl {
             gen_tvl_query(&mut r, &t0, &t1)
+        } else if force_range {
+            gen_range_query(&mut r, &t0, &t1)
         } else {
             gen_query(&mut r, &t0, &t1, force_scalar)
         };
